@@ -1,4 +1,344 @@
-From Dns Require Import Model.Dup.
-(* placeholder until Proofs/DupProofs.v lands *)
-Theorem placeholder_C20 : dedup [] = [].
-Proof. reflexivity. Qed.
+(* Props/C20.v -- property C20: record equality is a TTL/case-insensitive
+   equivalence; Dedup keeps one record per group.  Only statements; proofs in
+   Proofs/DedupProofs.v (sanitize.go) and Proofs/DupProofs.v (duplicate.go).
+
+   Vocabulary, part A.  [dedup l] models sanitize.go Dedup on the list l of
+   (normalised key, TTL) of the input records, in input order; it returns the
+   indices of the records kept, each with its final TTL, in output order (the
+   harness compares exactly this list against the Go result).  [key_of l i] and
+   [ttl_of l i] are the key and TTL of record i.  Two records are in the same
+   group iff their keys are equal; the key is normalizedString of the record
+   text, characterised at the end of part A. *)
+From Dns Require Import Model.Dup Gen.Dups Gen.Layouts Proofs.EscapeProofs Proofs.DedupProofs Proofs.DupProofs.
+From Coq Require Import Sorted.
+Open Scope list_scope.
+Open Scope N_scope.
+
+(* ---------------- Part A: Dedup ---------------- *)
+
+(* original order: the kept indices are strictly increasing and in range *)
+Theorem dedup_in_order :
+  forall l : list (bytes * N),
+    StronglySorted lt (map fst (dedup l)) /\
+    Forall (fun j => (j < length l)%nat) (map fst (dedup l)).
+Proof. exact DedupProofs.dedup_in_order. Qed.
+Print Assumptions dedup_in_order.
+
+(* index j is kept iff it is the first record of its group *)
+Theorem dedup_first_occurrences :
+  forall (l : list (bytes * N)) (j : nat),
+    In j (map fst (dedup l)) <->
+    (j < length l)%nat /\ (forall j', (j' < j)%nat -> key_of l j' <> key_of l j).
+Proof. exact DedupProofs.dedup_first_occurrences. Qed.
+Print Assumptions dedup_first_occurrences.
+
+(* the TTL of a kept record is the minimum over its group: attained by a record
+   of the group, and below the TTL of every record of the group *)
+Theorem dedup_min_ttl :
+  forall (l : list (bytes * N)) (j : nat) (t : N),
+    In (j, t) (dedup l) ->
+    (exists i, (i < length l)%nat /\ key_of l i = key_of l j /\ ttl_of l i = t) /\
+    (forall i, (i < length l)%nat -> key_of l i = key_of l j -> t <= ttl_of l i).
+Proof. exact DedupProofs.dedup_min_ttl. Qed.
+Print Assumptions dedup_min_ttl.
+
+(* every input record is represented by exactly one kept record *)
+Theorem dedup_complete :
+  forall (l : list (bytes * N)) (i : nat),
+    (i < length l)%nat ->
+    exists j, (In j (map fst (dedup l)) /\ key_of l j = key_of l i) /\
+              forall j', In j' (map fst (dedup l)) /\ key_of l j' = key_of l i -> j' = j.
+Proof. exact DedupProofs.dedup_complete. Qed.
+Print Assumptions dedup_complete.
+
+(* no index is returned twice *)
+Theorem dedup_no_repeats :
+  forall l : list (bytes * N), NoDup (map fst (dedup l)).
+Proof. exact DedupProofs.dedup_nodup. Qed.
+Print Assumptions dedup_no_repeats.
+
+(* non-vacuity: records 0,2,3 share a key, 1 and 4 share another one *)
+Example dedup_example :
+  let l := [([97], 30); ([98], 7); ([97], 20); ([97], 25); ([98], 9); ([99], 1)] in
+  dedup l = [(0%nat, 20); (1%nat, 7); (5%nat, 1)] /\
+  In (0%nat, 20) (dedup l) /\ (2 < length l)%nat /\ key_of l 2 = key_of l 0.
+Proof. vm_compute. repeat split; auto. Qed.
+
+(* normalizedString.  The record text is owner TAB ttl TAB rest.  Escape state:
+   an octet is escaped iff preceded by an odd number of backslashes
+   ([scan false s] is the state after s, [has_utab false s] says s contains an
+   unescaped TAB, [esc_lower false s] lower-cases the unescaped letters of s).
+   For an owner and a TTL column without unescaped TAB and not ending in a
+   dangling backslash, the TTL column is cut out, the owner is lower-cased
+   (escaped letters excepted, as in the Go code) and the rest is untouched. *)
+Theorem normalized_string_cuts_ttl_and_lowers_owner :
+  forall o ttl rest : bytes,
+    o <> [] ->
+    has_utab false o = false -> scan false o = false ->
+    has_utab false ttl = false -> scan false ttl = false ->
+    normalized_string (o ++ [9] ++ ttl ++ [9] ++ rest) = esc_lower false o ++ [9] ++ rest.
+Proof. exact normalized_string_general. Qed.
+Print Assumptions normalized_string_cuts_ttl_and_lowers_owner.
+
+(* the common case: no TAB and no backslash at all in the first two columns *)
+Theorem normalized_string_plain_columns :
+  forall o ttl rest : bytes,
+    o <> [] -> plain o -> plain ttl ->
+    normalized_string (o ++ [9] ++ ttl ++ [9] ++ rest) = lower_bytes o ++ [9] ++ rest.
+Proof. exact normalized_string_plain. Qed.
+Print Assumptions normalized_string_plain_columns.
+
+(* hence two record texts fall in the same Dedup group exactly when they differ
+   at most in the letter case of the owner column and in the TTL column *)
+Theorem same_key_iff_same_text_up_to_owner_case_and_ttl :
+  forall o1 ttl1 rest1 o2 ttl2 rest2 : bytes,
+    o1 <> [] -> o2 <> [] -> plain o1 -> plain ttl1 -> plain o2 -> plain ttl2 ->
+    (normalized_string (o1 ++ [9] ++ ttl1 ++ [9] ++ rest1) = normalized_string (o2 ++ [9] ++ ttl2 ++ [9] ++ rest2)
+     <-> lower_bytes o1 = lower_bytes o2 /\ rest1 = rest2).
+Proof. exact normalized_key_eq_iff. Qed.
+Print Assumptions same_key_iff_same_text_up_to_owner_case_and_ttl.
+
+(* the hypothesis o <> [] is needed: with an empty owner column the code takes
+   the second TAB for the first one (ttlStart = 0 is its not-yet-seen marker) *)
+Theorem normalized_string_empty_owner_refuted :
+  normalized_string ([] ++ [9] ++ [51] ++ [9] ++ [73; 78; 9; 65]) <> lower_bytes [] ++ [9] ++ [73; 78; 9; 65].
+Proof. exact DedupProofs.normalized_string_empty_owner_refuted. Qed.
+Print Assumptions normalized_string_empty_owner_refuted.
+
+(* non-vacuity: Ab.\C TAB 300 TAB IN TAB A ... : the escaped C keeps its case *)
+Example normalized_string_example :
+  let o := [65; 98; 46; 92; 67; 46] in let ttl := [51; 48; 48] in
+  o <> [] /\ has_utab false o = false /\ scan false o = false /\
+  has_utab false ttl = false /\ scan false ttl = false /\ plain ttl /\
+  normalized_string (o ++ [9] ++ ttl ++ [9] ++ [73; 78; 9; 65]) = [97; 98; 46; 92; 67; 46; 9; 73; 78; 9; 65].
+Proof.
+  cbv zeta. split; [discriminate|]. repeat split; try reflexivity.
+  repeat constructor; discriminate.
+Qed.
+
+(* ---------------- Part B: IsDuplicate ---------------- *)
+(* Vocabulary.  [is_duplicate r1 r2] models duplicate.go IsDuplicate; the RDATA
+   part interprets the comparison list [dp_cmps] that tools/gotrans extracts for
+   the record's Go type from the current zduplicate.go ([dups], regenerated on
+   every run), so the theorems below are re-proved against whatever the
+   generator emitted.  [cmps_wf cs] is a boolean check of one list: nothing
+   untranslated, every element-wise loop and areSVCBPairArraysEqual preceded by
+   the length comparison of the same field, every gateway comparison preceded
+   by the comparison of the gateway type, return true/false only at the end.
+   [typed_for cs v] says the RDATA v holds, in every field cs looks at, a value
+   of the kind the Go field type dictates (or nothing: the zero value). *)
+
+(* the whole current table is well-formed *)
+Theorem dups_table_well_formed :
+  forallb (fun t => cmps_wf (dp_cmps t)) dups = true.
+Proof. exact dups_wf. Qed.
+Print Assumptions dups_table_well_formed.
+
+(* the RDATA comparison of a well-formed list: total (no panic of
+   areSVCBPairArraysEqual, no error) on ALL values, typed or not ... *)
+Theorem rdata_comparison_never_panics :
+  forall (cs : list dcmp) (v1 v2 : rdata),
+    cmps_wf cs = true -> exists b, dup_cmps cs v1 v2 = Ok b.
+Proof. exact dup_cmps_total. Qed.
+Print Assumptions rdata_comparison_never_panics.
+
+(* ... reflexive on values of the right kinds, unless the list ends in return false ... *)
+Theorem rdata_comparison_reflexive :
+  forall (cs : list dcmp) (v : rdata),
+    cmps_wf cs = true -> no_const_false cs = true -> typed_for cs v = true ->
+    dup_cmps cs v v = Ok true.
+Proof. exact dup_cmps_refl. Qed.
+Print Assumptions rdata_comparison_reflexive.
+
+(* ... symmetric (the two verdicts are the same, whatever the values) ... *)
+Theorem rdata_comparison_symmetric :
+  forall (cs : list dcmp) (v1 v2 : rdata),
+    cmps_wf cs = true -> dup_cmps cs v1 v2 = dup_cmps cs v2 v1.
+Proof. exact dup_cmps_sym. Qed.
+Print Assumptions rdata_comparison_symmetric.
+
+(* ... and transitive *)
+Theorem rdata_comparison_transitive :
+  forall (cs : list dcmp) (v1 v2 v3 : rdata),
+    cmps_wf cs = true ->
+    dup_cmps cs v1 v2 = Ok true -> dup_cmps cs v2 v3 = Ok true -> dup_cmps cs v1 v3 = Ok true.
+Proof. exact dup_cmps_trans. Qed.
+Print Assumptions rdata_comparison_transitive.
+
+(* a true verdict means every listed field agrees: scalars are equal, names are
+   equal up to letter case *)
+Theorem duplicate_rdata_agree_on_compared_fields :
+  forall (cs : list dcmp) (v1 v2 : rdata) (f : string),
+    cmps_wf cs = true -> dup_cmps cs v1 v2 = Ok true ->
+    (In (D_eq f) cs -> vget v1 f = vget v2 f) /\
+    (In (D_name f) cs -> lower_bytes (as_s (vget v1 f)) = lower_bytes (as_s (vget v2 f))).
+Proof. exact dup_cmps_true_fields. Qed.
+Print Assumptions duplicate_rdata_agree_on_compared_fields.
+
+(* --- on records --- *)
+(* IsDuplicate never panics: it gives a verdict for every pair of records whose
+   Go type has an entry in the table *)
+Theorem is_duplicate_never_panics :
+  forall r1 r2 : rr,
+    (exists b, is_duplicate r1 r2 = Ok b) \/
+    (find_dup dups (rr_kind r1) = None /\ is_duplicate r1 r2 = Err "nodup").
+Proof. exact is_duplicate_total. Qed.
+Print Assumptions is_duplicate_never_panics.
+
+(* reflexive, for every record type but OPT and PrivateRR (next theorems) *)
+Theorem is_duplicate_reflexive :
+  forall (r : rr) (cs : list dcmp),
+    rr_kind r <> "OPT"%string -> rr_kind r <> "PrivateRR"%string ->
+    find_dup dups (rr_kind r) = Some cs -> typed_for cs (rr_data r) = true ->
+    is_duplicate r r = Ok true.
+Proof. exact is_duplicate_refl. Qed.
+Print Assumptions is_duplicate_reflexive.
+
+(* FINDING (known for OPT): OPT.isDuplicate and PrivateRR.isDuplicate are
+   "return false": IsDuplicate(r, r) is false for every such record, so the
+   relation is not reflexive there *)
+Theorem is_duplicate_opt_not_reflexive_refuted :
+  forall r : rr, rr_kind r = "OPT"%string -> is_duplicate r r = Ok false.
+Proof. exact is_duplicate_opt_irrefl. Qed.
+Print Assumptions is_duplicate_opt_not_reflexive_refuted.
+
+Theorem is_duplicate_privaterr_not_reflexive_refuted :
+  forall r : rr, rr_kind r = "PrivateRR"%string -> is_duplicate r r = Ok false.
+Proof. exact is_duplicate_private_irrefl. Qed.
+Print Assumptions is_duplicate_privaterr_not_reflexive_refuted.
+
+(* symmetric: same outcome in both directions, for all records *)
+Theorem is_duplicate_symmetric :
+  forall r1 r2 : rr, is_duplicate r1 r2 = is_duplicate r2 r1.
+Proof. exact is_duplicate_sym. Qed.
+Print Assumptions is_duplicate_symmetric.
+
+Theorem is_duplicate_transitive :
+  forall r1 r2 r3 : rr,
+    is_duplicate r1 r2 = Ok true -> is_duplicate r2 r3 = Ok true -> is_duplicate r1 r3 = Ok true.
+Proof. exact is_duplicate_trans. Qed.
+Print Assumptions is_duplicate_transitive.
+
+(* duplicates have the same class, type, Go type, and owner up to letter case *)
+Theorem is_duplicate_header :
+  forall r1 r2 : rr,
+    is_duplicate r1 r2 = Ok true ->
+    rr_class r1 = rr_class r2 /\ rr_type r1 = rr_type r2 /\ rr_kind r1 = rr_kind r2 /\
+    lower_bytes (rr_name r1) = lower_bytes (rr_name r2).
+Proof. exact is_duplicate_true_header. Qed.
+Print Assumptions is_duplicate_header.
+
+(* TTL and Rdlength of either record are not looked at *)
+Theorem is_duplicate_ignores_ttl :
+  forall (r1 r2 : rr) (ttl1 rdlen1 ttl2 rdlen2 : N),
+    is_duplicate (with_ttl r1 ttl1 rdlen1) (with_ttl r2 ttl2 rdlen2) = is_duplicate r1 r2.
+Proof. exact DupProofs.is_duplicate_ignores_ttl. Qed.
+Print Assumptions is_duplicate_ignores_ttl.
+
+(* nor is the letter case of the owner name *)
+Theorem is_duplicate_ignores_owner_case :
+  forall (r1 r2 : rr) (n1 n2 : bytes),
+    lower_bytes n1 = lower_bytes (rr_name r1) -> lower_bytes n2 = lower_bytes (rr_name r2) ->
+    is_duplicate (with_name r1 n1) (with_name r2 n2) = is_duplicate r1 r2.
+Proof. exact DupProofs.is_duplicate_ignores_owner_case. Qed.
+Print Assumptions is_duplicate_ignores_owner_case.
+
+(* nor the letter case of an embedded name (or list of names) f, provided the
+   type's comparison list looks at f only through isDuplicateName ([ci_ok f]);
+   [ci_variant o o']: o' is o up to the case of a name / of each name of a list *)
+Theorem is_duplicate_ignores_embedded_name_case :
+  forall (r1 r2 : rr) (v1' v2' : rdata) (f : string) (cs : list dcmp),
+    find_dup dups (rr_kind r1) = Some cs -> forallb (ci_ok f) cs = true ->
+    (forall g, g <> f -> vget v1' g = vget (rr_data r1) g /\ vget v2' g = vget (rr_data r2) g) ->
+    ci_variant (vget (rr_data r1) f) (vget v1' f) -> ci_variant (vget (rr_data r2) f) (vget v2' f) ->
+    is_duplicate (with_data r1 v1') (with_data r2 v2') = is_duplicate r1 r2.
+Proof. exact DupProofs.is_duplicate_ignores_embedded_name_case. Qed.
+Print Assumptions is_duplicate_ignores_embedded_name_case.
+
+(* --- the table against the wire layouts (Gen/Layouts.v, from zmsg.go) --- *)
+(* every field that pack() writes is looked at by the type's isDuplicate; the
+   one exception is OPT.Option (OPT's isDuplicate is return false) *)
+Theorem no_wire_field_omitted :
+  filter (fun x => negb (Nat.eqb (length (snd x)) 0)) (map (fun t => (tl_name t, uncompared t)) layouts)
+  = [("OPT"%string, ["Option"%string])].
+Proof. exact every_wire_field_compared. Qed.
+Print Assumptions no_wire_field_omitted.
+
+(* every field packed as a domain name (single, list, gateway host) is compared
+   by isDuplicateName with the same gateway mask and by nothing case-sensitive
+   ([name_field_ok]); and only such fields are compared case-insensitively
+   ([ci_cmp_ok]) *)
+Theorem embedded_names_compared_case_insensitively :
+  forallb (fun t => match find_dup dups (tl_name t) with
+                    | Some cs => forallb (name_field_ok cs) (tl_pack t) && forallb (ci_cmp_ok t) cs
+                    | None => false end) layouts = true.
+Proof. exact wire_names_compared_ci. Qed.
+Print Assumptions embedded_names_compared_case_insensitively.
+
+(* --- names obtained from the wire --- *)
+(* a valid wire name ls unpacks to the text show_name ls
+   (NameRoundtripProofs.unpack_wire_name, used by C04); on such texts
+   isDuplicateName holds exactly when the lower-cased uncompressed wire forms
+   are equal *)
+Theorem name_equal_iff_lowercased_wire_equal :
+  forall a b : list label,
+    valid_wire a = true -> valid_wire b = true ->
+    (name_eq_ci (show_name a) (show_name b) = true <->
+     lower_bytes (wire_name a) = lower_bytes (wire_name b)).
+Proof. exact name_eq_ci_wire. Qed.
+Print Assumptions name_equal_iff_lowercased_wire_equal.
+
+(* --- non-vacuity --- *)
+Definition mx_a : rr :=
+  {| rr_name := bytes_of_string "Example.ORG."; rr_type := 15; rr_class := 1; rr_ttl := 300; rr_rdlength := 0;
+     rr_kind := "MX"; rr_data := [("Preference"%string, V_n 10); ("Mx"%string, V_s (bytes_of_string "Mail.example.org."))] |}.
+Definition mx_b : rr :=
+  {| rr_name := bytes_of_string "example.org."; rr_type := 15; rr_class := 1; rr_ttl := 60; rr_rdlength := 20;
+     rr_kind := "MX"; rr_data := [("Preference"%string, V_n 10); ("Mx"%string, V_s (bytes_of_string "mail.EXAMPLE.org."))] |}.
+Definition mx_c : rr :=
+  {| rr_name := bytes_of_string "example.org."; rr_type := 15; rr_class := 1; rr_ttl := 60; rr_rdlength := 20;
+     rr_kind := "MX"; rr_data := [("Preference"%string, V_n 20); ("Mx"%string, V_s (bytes_of_string "mail.example.org."))] |}.
+Definition mx_cmps : list dcmp := [D_eq "Preference"; D_name "Mx"; D_const true].
+
+Example mx_records :
+  find_dup dups "MX" = Some mx_cmps /\ cmps_wf mx_cmps = true /\ no_const_false mx_cmps = true /\
+  typed_for mx_cmps (rr_data mx_a) = true /\ forallb (ci_ok "Mx") mx_cmps = true /\
+  is_duplicate mx_a mx_a = Ok true /\ is_duplicate mx_a mx_b = Ok true /\ is_duplicate mx_b mx_a = Ok true /\
+  is_duplicate mx_a mx_c = Ok false.
+Proof. vm_compute. repeat split. Qed.
+
+(* SVCB parameters in a different order, equal lengths: no panic, duplicates *)
+Example svcb_values :
+  let cs := [D_eq "Priority"; D_name "Target"; D_len_eq "Value"; D_pairs "Value"; D_const true] in
+  let v1 := [("Priority"%string, V_n 1); ("Target"%string, V_s [46]); ("Value"%string, V_pairs [(1, [2;104;50], 3); (3, [1;187], 2)])] in
+  let v2 := [("Priority"%string, V_n 1); ("Target"%string, V_s [46]); ("Value"%string, V_pairs [(3, [1;187], 2); (1, [2;104;50], 3)])] in
+  find_dup dups "SVCB" = Some cs /\ cmps_wf cs = true /\ typed_for cs v1 = true /\
+  dup_cmps cs v1 v2 = Ok true /\ dup_cmps cs v1 v1 = Ok true.
+Proof. vm_compute. repeat split. Qed.
+
+(* IPSECKEY with a host gateway (case differs), TXT with two strings *)
+Example ipseckey_and_txt_values :
+  let cs := [D_eq "Precedence"; D_eq "GatewayType"; D_eq "Algorithm"; D_gateway "GatewayType" 255 "GatewayAddr" "GatewayHost"; D_eq "PublicKey"; D_const true] in
+  let v1 := [("Precedence"%string, V_n 10); ("GatewayType"%string, V_n 3); ("Algorithm"%string, V_n 2);
+             ("GatewayAddr"%string, V_b []); ("GatewayHost"%string, V_s (bytes_of_string "GW.example.")); ("PublicKey"%string, V_enc [1;2;3])] in
+  let v2 := [("Precedence"%string, V_n 10); ("GatewayType"%string, V_n 3); ("Algorithm"%string, V_n 2);
+             ("GatewayAddr"%string, V_b []); ("GatewayHost"%string, V_s (bytes_of_string "gw.EXAMPLE.")); ("PublicKey"%string, V_enc [1;2;3])] in
+  let ts := [D_len_eq "Txt"; D_each_eq "Txt"; D_const true] in
+  let t1 := [("Txt"%string, V_ss [[97]; [98; 99]])] in
+  find_dup dups "IPSECKEY" = Some cs /\ cmps_wf cs = true /\ typed_for cs v1 = true /\ dup_cmps cs v1 v2 = Ok true /\
+  find_dup dups "TXT" = Some ts /\ typed_for ts t1 = true /\ dup_cmps ts t1 t1 = Ok true /\
+  dup_cmps ts t1 [("Txt"%string, V_ss [[97]; [98; 67]])] = Ok false.
+Proof. vm_compute. repeat split. Qed.
+
+(* the well-formedness check is not trivially true: the loop without its length
+   test is rejected, and that list does panic on a shorter second argument *)
+Example cmps_wf_rejects :
+  cmps_wf [D_pairs "Value"; D_const true] = false /\
+  dup_cmps [D_pairs "Value"; D_const true] [("Value"%string, V_pairs [(1, [], 0)])] [("Value"%string, V_pairs [])] = Panic /\
+  cmps_wf [D_const true; D_eq "X"] = false /\ cmps_wf [D_other "x"] = false.
+Proof. vm_compute. repeat split. Qed.
+
+Example wire_names :
+  let a := [[87; 87; 87]; [97]] in let b := [[119; 119; 119]; [65]] in
+  valid_wire a = true /\ valid_wire b = true /\ name_eq_ci (show_name a) (show_name b) = true /\ a <> b.
+Proof. vm_compute. repeat split. discriminate. Qed.
